@@ -13,7 +13,7 @@ Input (JSON):
   EITHER exs   [ExRes, …]              (logical exchange results, already classified)
   OR     tx    [Tx, …], nonce          (every transmission the CA answered, in order; `nonce` = the
                                         nonce the endpoint held before: null | n)
-  ExRes   = {"r":"ok","body":Body} | {"r":"acmeErr","ty":"accountDoesNotExist"|"other"} | {"r":"otherErr"}
+  ExRes   = {"r":"ok","body":Body} | {"r":"acmeErr","ty":"accountDoesNotExist"|"sigRefused"|"other"} | {"r":"otherErr"} | {"r":"lost"}
   Body    = {"t":"directory","ok":b} | {"t":"account","has_orders":b,"has_location":b,"existing":b}
           | {"t":"order","status":s,"authzs":[n],"has_cert":b,"has_location":b}
           | {"t":"authz","ident":n,"wildcard":b,"status":s,"challenges":[{"type":s,"id":n}]}
@@ -95,7 +95,9 @@ def fsBody (j : Json) : Flow.Body :=
 def fsExRes (j : Json) : Flow.ExRes :=
   match str j "r" with
   | "ok" => .ok (fsBody (get j "body"))
-  | "acmeErr" => .acmeErr (if str j "ty" == "accountDoesNotExist" then .accountDoesNotExist else .other)
+  | "acmeErr" => .acmeErr (if str j "ty" == "accountDoesNotExist" then .accountDoesNotExist
+                           else if str j "ty" == "sigRefused" then .sigRefused else .other)
+  | "lost" => .lost
   | _ => .otherErr
 
 def fsCfg (j : Json) : Flow.Cfg :=
@@ -180,6 +182,10 @@ def fsToExRes (bodies : Array Flow.Body) : Http.Result → Option Flow.ExRes
   | .ok (.payload i) => some (.ok (bodies.getD i .undecodable))
   | .ok _ => some (.ok .undecodable)
   | .err (.api .accountDoesNotExist) => some (.acmeErr .accountDoesNotExist)
+  | .err (.api .unauthorized) => some (.acmeErr .sigRefused)
+  | .err (.api .malformed) => some (.acmeErr .sigRefused)
+  | .err (.api .badSignatureAlgorithm) => some (.acmeErr .sigRefused)
+  | .err (.api .badPublicKey) => some (.acmeErr .sigRefused)
   | .err (.api _) => some (.acmeErr .other)
   | .err _ => some .otherErr
   | .stuck => none
@@ -211,8 +217,10 @@ def fsHttpRes : Http.Result → String
 def fsResName : Flow.ExRes → String
   | .ok _ => "ok"
   | .acmeErr .accountDoesNotExist => "acmeErr:accountDoesNotExist"
+  | .acmeErr .sigRefused => "acmeErr:sigRefused"
   | .acmeErr .other => "acmeErr:other"
   | .otherErr => "otherErr"
+  | .lost => "lost"
 
 def fsStepName : Flow.Step → String
   | .directory => "directory" | .register => "register" | .saveAccount => "saveAccount"
@@ -236,6 +244,7 @@ def fsKind : Flow.ReqKind → String × Option Nat
   | .orderPoll => ("orderPoll", none)
   | .finalize => ("finalize", none)
   | .certDownload => ("certDownload", none)
+  | .accountProbe => ("accountProbe", none)
 
 def fsAuth : Flow.Auth → String
   | .jwk => "jwk"
